@@ -1,4 +1,5 @@
 import Sftp.Model.ModeCheck
+import Sftp.Props.C17Setstat
 namespace Sftp.Driver.C17
 open Sftp
 
@@ -8,10 +9,29 @@ def num (f : Nat → Nat) : List String → String
     | none => "bad-op"
   | _ => "bad-op"
 
+def kindName : Sftp.C17.AttrKind → String
+  | .size => "size" | .perm => "perm" | .owner => "owner" | .times => "times"
+
+/-- `c17.changed s|f <flags>` → comma-separated attribute kinds a SETSTAT (s) / FSETSTAT (f) with these
+flags changes, in application order, duplicates removed (`-` if none) -/
+def changedOp : List String → String
+  | [w, fl] =>
+    match fl.toNat? with
+    | none => "bad-op"
+    | some flags =>
+      let steps := if w = "s" then some G.setstatSteps else if w = "f" then some G.fsetstatSteps else none
+      match steps with
+      | none => "bad-op"
+      | some st =>
+        let ks := ((Sftp.C17.changed st flags).map kindName).eraseDups
+        if ks.isEmpty then "-" else ",".intercalate ks
+  | _ => "bad-op"
+
 def ops : List (String × (List String → String)) :=
   [ ("c17.tofm", num Sftp.C17.toFileMode),
     ("c17.fromfm", num Sftp.C17.fromFileMode),
     ("c17.chmod", num Sftp.C17.toChmodPerm),
-    ("c17.osmode", num Sftp.Spec.Mode.osModeOfIndex) ]
+    ("c17.osmode", num Sftp.Spec.Mode.osModeOfIndex),
+    ("c17.changed", changedOp) ]
 
 end Sftp.Driver.C17
